@@ -89,6 +89,32 @@ def decode_time(v):
     return int(np.floor(np.real(v) / 1024))
 
 
+# Memory layout of the array handed to the constructor rotates per call within a case (values are identical; a
+# result must not depend on it): C order, Fortran order, a strided view of a larger buffer.  The counter is reset
+# at the start of every case so that a replayed case sees the same layouts.
+_LAYOUT = [0]
+LAYOUTS_ENABLED = True
+
+
+def new_case():
+    _LAYOUT[0] = 0
+
+
+def _layout(data):
+    if not LAYOUTS_ENABLED or not isinstance(data, np.ndarray) or data.ndim < 1 or data.dtype.hasobject:
+        return data
+    k = _LAYOUT[0] % 3
+    _LAYOUT[0] += 1
+    if k == 1:
+        return np.asfortranarray(data)
+    if k == 2:
+        buf = np.zeros((2 * data.shape[0] + 1,) + data.shape[1:], dtype=data.dtype)
+        view = buf[1::2]
+        view[...] = data
+        return view
+    return data
+
+
 def make(cls, data, *, rate_name="1Hz", start_name="none", fc=400 * u.MHz, chan_bw=None,
          align="center", pol_type="linear", meta=None, sample_rate=None, start_time="use_name"):
     sr = rate(rate_name) if sample_rate is None else sample_rate
@@ -104,7 +130,7 @@ def make(cls, data, *, rate_name="1Hz", start_name="none", fc=400 * u.MHz, chan_
         kw["chan_bw"] = sr if chan_bw is None else chan_bw
     if cls == "DualPolarizationSignal":
         kw["pol_type"] = pol_type
-    return C(data, **kw)
+    return C(_layout(data), **kw)
 
 
 def make_encoded(cls, L, *, nchan=2, extra=(), dtype=None, **kw):
